@@ -31,7 +31,7 @@ BUDGET = {'quick': 400, 'thorough': 2400}
 MAX_SHARDS = 8
 CASE_TIMEOUT = 200
 ACTIONS = ['extkill', 'restart', 'reload', 'reloadseq', 'incr', 'decr', 'reloadconfig', 'extkill', 'reloadconfig-edit',
-           'reloadconfig-edit', 'failspawn', 'failspawn']
+           'reloadconfig-edit', 'failspawn', 'failspawn', 'stop-sibling', 'stop-sibling']
 
 
 def plan(tier, seed):
@@ -51,6 +51,15 @@ def build(rnd):
         syntax = rnd.choice(['$(circus.sockets.%s)', '((circus.sockets.%s))', '$(CIRCUS.SOCKETS.%s)'])
         ws.append({'name': 'w%d' % i, 'sock': s['name'], 'ref': syntax % s['name'],
                    'where': rnd.choice(['cmd', 'args']), 'np': rnd.randint(1, 2)})
+        if len(socks) > 1 and rnd.random() < .4:
+            # a command line that names two managed sockets
+            s2 = rnd.choice([x for x in socks if x['name'] != s['name']])
+            ws[-1]['sock2'] = s2['name']
+            ws[-1]['ref2'] = rnd.choice(['$(circus.sockets.%s)', '((circus.sockets.%s))']) % s2['name']
+    if rnd.random() < .5:
+        # two watchers sharing one socket
+        for k_ in ('sock', 'ref'):
+            ws[1][k_] = ws[0][k_]
     return {'sockets': socks, 'watchers': ws}
 
 
@@ -65,10 +74,11 @@ def ini_for(d, conf):
                 'proto = tcp\nbacklog = 64\n' if s.get('explicit') else '')
     for w in conf['watchers']:
         base = live.worker_cmd({'log': '@LOG@', 'dump': True, 'tagw': w['name']})
+        refs = '--fd %s' % w['ref'] + (' --fd2 %s' % w['ref2'] if w.get('ref2') else '')
         if w['where'] == 'cmd':
-            txt += '[watcher:%s]\ncmd = %s --fd %s\n' % (w['name'], base, w['ref'])
+            txt += '[watcher:%s]\ncmd = %s %s\n' % (w['name'], base, refs)
         else:
-            txt += '[watcher:%s]\ncmd = %s\nargs = --fd %s\n' % (w['name'], base, w['ref'])
+            txt += '[watcher:%s]\ncmd = %s\nargs = %s\n' % (w['name'], base, refs)
         txt += ('use_sockets = True\nnumprocesses = %d\ngraceful_timeout = 1\ncopy_env = True\nworking_dir = @DIR@/wd_%s\n\n'
                 % (w['np'], w['name']))
     txt += ('[watcher:plain]\ncmd = %s\nnumprocesses = 1\ngraceful_timeout = 1\ncopy_env = True\n\n'
@@ -180,28 +190,33 @@ def _case(d, conf, actions, rnd, res):
                                       'use_sockets holds %s (%s)' % (p, socks, gen_label))
                     continue
                 argv = dump['argv']
-                try:
-                    fdn = argv[argv.index('--fd') + 1]
-                except (ValueError, IndexError):
-                    fdn = None
-                m = managed[w['sock']]
-                if fdn is None or not fdn.isdigit():
-                    res.violation('C07/descriptor-not-substituted', 'worker %d argv %s: %s was not replaced by a '
-                                  'descriptor number (%s)' % (p, argv[3:], w['ref'], gen_label))
-                    continue
-                tgt = fds.get(fdn)
-                if tgt is None or not tgt.startswith('socket:'):
-                    res.violation('C07/descriptor-not-a-socket', 'worker %d was told --fd %s but that descriptor is %r '
-                                  '(%s)' % (p, fdn, tgt, gen_label))
-                    continue
-                res.obs['descriptor_checks'] += 1
-                if m['conf'].get('reuseport'):
-                    res.obs['reuseport_workers(own socket by design)'] += 1
-                    continue
-                ino = re.match(r'socket:\[(\d+)\]', tgt).group(1)
-                if ino != m['inode']:
-                    res.violation('C07/worker-socket-is-not-the-daemons', 'worker %d descriptor %s is socket inode %s, the '
-                                  'daemon bound inode %s for %s (%s)' % (p, fdn, ino, m['inode'], w['sock'], gen_label))
+                for flag, sockname, ref in (('--fd', w['sock'], w['ref']), ('--fd2', w.get('sock2'), w.get('ref2'))):
+                    if sockname is None:
+                        continue
+                    try:
+                        fdn = argv[argv.index(flag) + 1]
+                    except (ValueError, IndexError):
+                        fdn = None
+                    m = managed[sockname]
+                    if fdn is None or not fdn.isdigit():
+                        res.violation('C07/descriptor-not-substituted', 'worker %d argv %s: %s was not replaced by a '
+                                      'descriptor number (%s)' % (p, argv[3:], ref, gen_label))
+                        continue
+                    tgt = fds.get(fdn)
+                    if tgt is None or not tgt.startswith('socket:'):
+                        res.violation('C07/descriptor-not-a-socket', 'worker %d was told %s %s but that descriptor is %r '
+                                      '(%s)' % (p, flag, fdn, tgt, gen_label))
+                        continue
+                    res.obs['descriptor_checks'] += 1
+                    if flag == '--fd2':
+                        res.obs['second_socket_checks'] += 1
+                    if m['conf'].get('reuseport'):
+                        res.obs['reuseport_workers(own socket by design)'] += 1
+                        continue
+                    ino = re.match(r'socket:\[(\d+)\]', tgt).group(1)
+                    if ino != m['inode']:
+                        res.violation('C07/worker-socket-is-not-the-daemons', 'worker %d descriptor %s is socket inode %s, the '
+                                      'daemon bound inode %s for %s (%s)' % (p, fdn, ino, m['inode'], sockname, gen_label))
         for name, m in managed.items():
             now = sock_inode(d.pid, m['fd'])
             if now != m['inode']:
@@ -235,6 +250,24 @@ def _case(d, conf, actions, rnd, res):
             d.call('incr', name=wn, waiting=True, timeout=15)
         elif act == 'decr':
             d.call('decr', name=wn, waiting=True, timeout=15)
+        elif act == 'stop-sibling':
+            # another watcher (sharing the socket when there is one) is stopped while this one gets new workers
+            sib = [x for x in conf['watchers'] if x['name'] != wn]
+            same = [x for x in sib if x['sock'] == next(y for y in conf['watchers'] if y['name'] == wn)['sock']]
+            w2 = rnd.choice(same or sib)['name']
+            d.call('stop', name=w2, waiting=True, timeout=15)
+            for p in d.call('list', name=wn).get('pids', []):
+                try:
+                    os.kill(p, 9)
+                except OSError:
+                    pass
+            time.sleep(0.8)
+            d.call('incr', name=wn, waiting=True, timeout=15)
+            time.sleep(0.4)
+            inspect('generation %d: %s respawned while %s is stopped' % (g, wn, w2))
+            d.call('decr', name=wn, waiting=True, timeout=15)
+            d.call('start', name=w2, waiting=True, timeout=15)
+            res.obs['sibling_stopped_episodes'] += 1
         elif act == 'failspawn':
             # process creation fails for a while (the working directory is gone): every retry of the respawn
             # raises in the daemon; afterwards the directory is back and the watcher is started again
